@@ -59,7 +59,7 @@ def main():
                       dict(name='native', path='native/', serves_properties=[c['property_id'] for c in checks if c['engine'] == 'native'],
                            kind_free_text='rapidcheck / libFuzzer / exhaustive enumeration against the natively compiled sources or the real libraries')],
              checks=checks,
-             notes='See DESIGN.md. known_findings.json lists genuine defects (all repaired by fix: commits so far); regress/<id>/ holds their minimised tapes.',
+             notes='See DESIGN.md. known_findings.json lists the genuine defects found: ten repaired by fix: commits in /repo, two left open for C09 (printed as KNOWN-FINDING, excluded from the search by signature); regress/<id>/ holds their minimised tapes.',
              not_applicable=na)
     json.dump(m, open('/verif/MANIFEST.json', 'w'), indent=1)
     print('checks:', [c['property_id'] for c in checks])
